@@ -447,3 +447,76 @@ class FlagGuard:
 
     def tested_somewhere(self):
         return any(self.switches(d) for d in self.bodies)
+
+
+def _shift(x, dl, db, is_term=False):
+    """deep copy of a MIR JSON fragment with locals shifted by dl (and, in terminators, block targets by db)"""
+    if isinstance(x, list):
+        return [_shift(y, dl, db) for y in x]
+    if not isinstance(x, dict):
+        return x
+    out = {}
+    for k, v in x.items():
+        if k == "l" and isinstance(v, int):
+            out[k] = v + dl
+        elif k == "i" and isinstance(v, int) and len(x) == 1:
+            out[k] = v + dl          # index projection by a local
+        else:
+            out[k] = _shift(v, dl, db)
+    return out
+
+
+def _shift_term(t, dl, db):
+    out = _shift(t, dl, db)
+    for k in ("t", "u", "else"):
+        if isinstance(t.get(k), int):
+            out[k] = t[k] + db
+    if "ts" in t and t["k"] == "Switch":
+        out["ts"] = [[v, b + db] for v, b in t["ts"]]
+    return out
+
+
+def inline_calls(facts, body, crates, depth=2, only=lambda d: True, _stack=()):
+    """A copy of the MIR body in which every direct call of a first-party function (of the given crates, accepted by
+    `only`, not recursive) is replaced by the callee's blocks: arguments are assigned to the callee's parameters, its
+    returns assign the destination and jump to the call's continuation. Path rules (dominance, must-follow, value
+    flow) then see through private helper functions exactly as if their code stood at the call site."""
+    j = {"def": body["def"], "argc": body.get("argc"), "locals": list(body["locals"]), "bbs": [dict(bb) for bb in body["bbs"]],
+         "sp": body.get("sp"), "kind": body.get("kind"), "root": body.get("root"), "promoted": body.get("promoted", []), "inlined": []}
+    if depth <= 0:
+        return j
+    by_def = {}
+    for c in crates:
+        for b in facts.mir(c):
+            by_def.setdefault(norm_def(b["def"]), b)
+    i = 0
+    while i < len(j["bbs"]):
+        bb = j["bbs"][i]
+        t = bb["t"]
+        i += 1
+        if t["k"] != "Call" or bb.get("cleanup") or t.get("t") is None:
+            continue
+        cal = None
+        for c in (t.get("res"), t.get("fn")):
+            if c and norm_def(c) in by_def and only(norm_def(c)):
+                cal = by_def[norm_def(c)]
+                break
+        if cal is None or norm_def(cal["def"]) in _stack or norm_def(cal["def"]) == norm_def(body["def"]) or len(t["args"]) != (cal.get("argc") or 0):
+            continue
+        g = inline_calls(facts, cal, crates, depth - 1, only, _stack + (norm_def(body["def"]),))
+        dl, db = len(j["locals"]), len(j["bbs"])
+        j["locals"] += g["locals"]
+        for gb in g["bbs"]:
+            nb = {"st": _shift(gb["st"], dl, db), "t": _shift_term(gb["t"], dl, db)}
+            if gb.get("cleanup"):
+                nb["cleanup"] = True
+            if nb["t"]["k"] == "Return":
+                nb["st"] = nb["st"] + [{"k": "A", "p": t["d"], "r": {"k": "Use", "o": {"m": {"l": dl}}}, "sp": t.get("sp")}]
+                nb["t"] = {"k": "Goto", "t": t["t"], "sp": t.get("sp")}
+            elif nb["t"]["k"] == "Resume" and t.get("u") is not None:
+                nb["t"] = {"k": "Goto", "t": t["u"], "sp": t.get("sp")}
+            j["bbs"].append(nb)
+        pre = [{"k": "A", "p": {"l": dl + 1 + k}, "r": {"k": "Use", "o": a}, "sp": t.get("sp")} for k, a in enumerate(t["args"])]
+        j["bbs"][i - 1] = {"st": bb["st"] + pre, "t": {"k": "Goto", "t": db, "sp": t.get("sp")}}
+        j["inlined"].append(cal["def"])
+    return j
